@@ -289,6 +289,28 @@ def static_states(root):
     return out
 
 
+def multi_header_states(root):
+    """Several `.header()` calls: only the last one has to exist as a path; the
+    others are handed to clang as `-include <name>` and may be found through
+    the include search path. All of these are inputs clang accepts."""
+    d = os.path.join(root, "multi")
+    os.makedirs(os.path.join(d, "include"), exist_ok=True)
+    with open(os.path.join(d, "include", "board_config.h"), "w") as f:
+        f.write("#define BOARD_PINS 4\ntypedef unsigned pin_t;\n")
+    with open(os.path.join(d, "api.h"), "w") as f:
+        f.write("struct Board { pin_t pins[BOARD_PINS]; };\n")
+    with open(os.path.join(d, "first.h"), "w") as f:
+        f.write("typedef long first_t;\n")
+    with open(os.path.join(d, "second.h"), "w") as f:
+        f.write("struct Second { first_t f; };\n")
+    inc = ["--", "-I" + os.path.join(d, "include")]
+    return [("non-last-header-via-include-path", ["board_config.h", os.path.join(d, "api.h")], inc, "OK"),
+            ("two-headers-by-path", [os.path.join(d, "first.h"), os.path.join(d, "second.h")], [], "OK"),
+            ("three-headers", [os.path.join(d, "first.h"), "board_config.h", os.path.join(d, "api.h")], inc, "OK"),
+            ("non-last-header-missing-everywhere", ["nowhere_to_be_found.h", os.path.join(d, "api.h")], inc, "ClangDiagnostic"),
+            ("last-header-missing", [os.path.join(d, "first.h"), os.path.join(d, "gone.h")], [], "NotExist")]
+
+
 def config_states():
     """Unsupported edition/target pairs must yield their error value."""
     return [("edition2024-on-1.70", ["--rust-target", "1.70", "--rust-edition", "2024"], "UnsupportedEdition"),
@@ -409,6 +431,20 @@ def run(tier, seed):
             if v:
                 record(dict(v, state=tag, tier="config"), {"kind": "config", "flags": flags, "expect": expect,
                                                           "observed": obs})
+
+        # ---------------------------------------------------- several input headers (library use)
+        mh = multi_header_states(root)
+        scen = [{"req": {"op": "gen", "job": {"id": tag, "headers": hs, "flags": list(BASE_FLAGS) + fl}, "arm_steps": True},
+                 "tag": f"multi-{tag}"} for tag, hs, fl, expect in mh]
+        res = run_children(scen, work)
+        for (tag, hs, fl, expect), (obs, fired) in zip(mh, res):
+            scen_total += 1
+            distinct.add(("multi-header", tag, obs.get("kind")))
+            v = classify(obs, ["multi"], None, expect=expect)
+            if v:
+                sig = dict(v, state=tag, tier="multi-header")
+                sig.pop("message", None)
+                record(sig, {"kind": "multi", "state": tag, "expect": expect, "observed": obs})
 
         # ---------------------------------------------------- corpus under step budgets (liveness)
         jobs = corpus_jobs()
@@ -575,6 +611,14 @@ def replay(doc):
                     v = classify(obs, ["static"], None, expect=expect)
                     return bool(v) and v["class"] == doc["signature"]["class"], {"observed": obs}
             raise HarnessError("unknown static state")
+        if kind == "multi":
+            for tag, hs, fl, expect in multi_header_states(root):
+                if tag == doc["state"]:
+                    obs, fired = run_child({"op": "gen", "job": {"id": tag, "headers": hs, "flags": list(BASE_FLAGS) + fl},
+                                            "arm_steps": True}, [], work, "replay")
+                    v = classify(obs, ["multi"], None, expect=expect)
+                    return bool(v) and v["class"] == doc["signature"]["class"], {"observed": obs}
+            raise HarnessError("unknown multi-header state")
         if kind == "config":
             d = make_set(root, "c-basic")
             job = {"id": "cfg", "header": os.path.join(d, "inc_b.h"), "flags": list(BASE_FLAGS) + doc["flags"]}
@@ -643,6 +687,8 @@ REJECTED = {
     "error-directive.h": "#error this header must not be used\nstruct E { int e; };\n",
     "missing-include.h": "#include \"does_not_exist_anywhere.h\"\nstruct M { int m; };\n",
     "error-in-macro.h": "#define DECL(t, n) t n\nDECL(int, 3x);\nstruct K { int k; };\n",
+    "many-warnings-then-error.h": "".join(f"#define NOISY_{i % 20} {i}\n" for i in range(60)) +
+                                  "struct Dev { unknown_handle_t h; };\n",
     "redefinition.h": "struct D { int a; };\nstruct D { long b; };\n",
     "template-error.hpp": "template <typename T> struct W { typename T::nested v; };\nW<int> w;\n",
     "static-assert.hpp": "static_assert(sizeof(int) == 3, \"no\");\nstruct S { int s; };\n",
